@@ -232,9 +232,11 @@ def shape_tags(asg) -> list[str]:
         if lit["v"] is None or abs(lit["v"]["n"]) > 32767:
             fr = Fraction(lit["text"]) if "e" not in lit["text"].lower() else Fraction(float(lit["text"]))
             den = fr.denominator
-            # big-literal: exactly representable as a double but beyond TLC's integers; inexact-literal: not dyadic, so
-            # the double the back ends use differs from the decimal text and no exact reference applies
-            tags.append("big-literal" if den & (den - 1) == 0 else "inexact-literal")
+            # big-literal: an INTEGER beyond TLC's range (double arithmetic on it and the harness's small dyadic inputs is
+            # still exact, so an exact Fraction reference applies); inexact-literal: anything else the model cannot hold
+            # (non-dyadic decimals, tiny or huge magnitudes in exponent notation): the back ends round, no exact
+            # reference applies, they are compared with each other bit for bit
+            tags.append("big-literal" if den == 1 and "e" not in lit["text"].lower() and "." not in lit["text"] else "inexact-literal")
     return sorted(set(tags))
 
 
